@@ -99,9 +99,68 @@ let mergein_of = function
       m_prepare = step_of prep; m_outdocs = nat_of_int (int_atom outdocs) }
   | x -> failwith ("bad mergein " ^ to_string x)
 
+(* ---- C19 ---- *)
+let fmt_of = function A "string" -> Ey.OString | A "block" -> Ey.OBlock | x -> failwith ("bad fmt " ^ to_string x)
+
+let table3 (name : string) (rows : t list) : (string * string, string option) Hashtbl.t =
+  let h = Hashtbl.create 16 in
+  List.iter (function
+      | L [k; arg; res] ->
+        Hashtbl.replace h (sym k, implode (str_atom arg)) (match res with A "none" -> None | x -> Some (implode (str_atom x)))
+      | x -> failwith ("bad " ^ name ^ " row " ^ to_string x)) rows;
+  h
+
+let lookup3 name h (k : string) (arg : char list) : char list option =
+  match Hashtbl.find_opt h (k, implode arg) with
+  | Some r -> (match r with Some v -> Some (explode v) | None -> None)
+  | None -> failwith ("oracle-miss " ^ name ^ " " ^ k ^ " " ^ String.escaped (implode arg))
+
+let pseg_sexp = function
+  | Ey.SKey k -> L [A "K"; sexp_of_pyval k]
+  | Ey.SIdx i -> L [A "I"; A ("i" ^ string_of_int (int_of_nat i))]
+  | Ey.SAnchor a -> L [A "A"; s a]
+
+let rotate_handle (d : t) (next : t) (folded : t list) (dect : t list) (enct : t list) (layt : t list) : t =
+  let dh = table3 "dec" dect and eh = table3 "enc" enct and lh = table3 "layout" layt in
+  let dec (k : string) c = lookup3 "dec" dh k c in
+  let enc (k : string) p = lookup3 "enc" eh k p in
+  let layout f c =
+    match lookup3 "layout" lh (match f with Ey.OString -> "string" | Ey.OBlock -> "block") c with
+    | Some v -> v | None -> failwith "layout table holds none" in
+  let r = Ey.rotate_file enc dec layout "old" "new" (node_of_sexp d) (n_of_int (int_atom next))
+      (List.map (fun x -> n_of_int (int_atom x)) folded) in
+  (* canonical form: identities renumbered by first occurrence (fresh objects
+     compare equal), has_anchor_attr / tag of nodes dropped *)
+  let tbl = Hashtbl.create 16 in
+  let num (o : n) =
+    let k = int_of_n o in
+    (match Hashtbl.find_opt tbl k with
+     | Some v -> v
+     | None -> let v = Hashtbl.length tbl in Hashtbl.add tbl k v; v) in
+  let head kind (i : info) = [A kind; A ("i" ^ string_of_int (num i.oid)); sexp_of_opt_str i.anchor] in
+  let rec canon (nd : node) : t =
+    match nd with
+    | NLeaf (i, v) -> let h = head "L" i in L (h @ [sexp_of_pyval v])
+    | NMap (i, kvs) ->
+      let h = head "M" i in
+      L (h @ [L (List.map (fun (k, v) -> let ck = canon k in let cv = canon v in L [ck; cv]) kvs)])
+    | NSeq (i, els) -> let h = head "S" i in L (h @ [L (List.map canon els)])
+    | NSet (i, els) -> let h = head "T" i in L (h @ [L (List.map canon els)]) in
+  outcome_sexp (fun (st : Ey.rstate) ->
+      L [L [A "doc"; canon st.Ey.r_doc]; L [A "changed"; bs st.Ey.r_changed];
+         L [A "exit"; A ("i" ^ string_of_int (int_of_nat st.Ey.r_exit))];
+         (* the plaintexts actually sent to `eyaml encrypt` (a plaintext that itself
+            carries the marker is stored as it is, without a call) *)
+         L [A "rotated"; L (List.filter_map (fun ((o, p), c) ->
+             if Ey.is_eyaml_value (PStr p) then None else Some (s p)) st.Ey.r_log)]]) r
+
 let handle (cmd : string) (args : t list) : t option =
   match cmd, args with
   | "save", [c; s; f] -> Some (out_sexp (Sv.save (cfg_of c) (fault_of f) (fs_of s)))
   | "setmain", [i; s; f] -> Some (out_sexp (Sc.set_main (setin_of i) (fault_of f) (fs_of s)))
   | "mergemain", [i; s; f] -> Some (out_sexp (Sc.merge_main (mergein_of i) (fault_of f) (fs_of s)))
+  | "rotate", [d; next; L folded; L dect; L enct; L layt] -> Some (rotate_handle d next folded dect enct layt)
+  | "eyaml-paths", [d] ->
+    Some (L (List.map (fun p -> L (List.map pseg_sexp p)) (Ey.find_eyaml_paths (node_of_sexp d))))
+  | "is-eyaml", [v] -> Some (bs (Ey.is_eyaml_value (pyval_of_sexp v)))
   | _ -> None
